@@ -169,6 +169,8 @@ def node_engine(res, work, *, node, trace_module, cfgs, consts_of, adapt, attrib
             # a counter sequence that differs from the specification's is always a balance problem (C05); it is a
             # safety problem (C04) in addition when the callback came too early
             also = ["C05"] if prop == "C04" else []
+            if prop == "C08" and evt["ev"] in ("End", "ObsTimers", "Flush", "Tick"):
+                also = ["C02"]       # an element that is never (or twice) emitted is a loss / duplication as well
             res.violations.append(dict(
                 property=prop, also=also, engine=res.name, clause=evt["ev"],
                 what="%s %s schedule '%s': event #%d %s -- %s" % (
